@@ -20,9 +20,20 @@ W_LIGHT = {"mkfile": 3, "mkdir": 1, "symlink": 0, "add": 6, "edit": 12, "chmod":
            "remove": 1, "unversion": 0, "delete_disk": 0, "kindchange": 0}
 
 
+MERGE_MODES = ["none", "none", "edit", "revert_this", "revert_this", "revert_older"]
+MERGE_MODES_EXTRA = MERGE_MODES + ["touch_forked", "touch_forked", "touch_forked"]
+MIX = {"plain": 30, "branch": 14, "merge": 26, "crisscross": 8, "parallel": 9, "cherrypick": 6, "resurrect": 4}
+MIX_EXTRA = dict(MIX, octopus=16)
+
+
 class Builder:
-    def __init__(self, ctx, rng, fmt="2a", tier="quick", light=False, ghosts=True, tags=False, nbranches=3):
+    def __init__(self, ctx, rng, fmt="2a", tier="quick", light=False, ghosts=True, tags=False, nbranches=3, extra=False):
+        # extra=True (C02 only): more directories, directory renames in plain commits, octopus merges
+        # (>= 3 parents, sibling branches), post-merge changes aimed at entries whose versions differ
+        # among the pending parents.  With extra=False the random stream is what C22 / C25 were tuned on.
         self.ctx, self.rng, self.fmt, self.light = ctx, rng, fmt, light
+        self.extra = extra
+        self.merge_modes = list(MERGE_MODES_EXTRA if extra else MERGE_MODES)
         self.names = Names(tier)
         self.weights = W_LIGHT if light else W_FULL
         self.ghosts, self.tags, self.nbranches = ghosts, tags, nbranches
@@ -47,7 +58,13 @@ class Builder:
         base = wt.basedir
         os.mkdir(os.path.join(base, "d1"))
         paths = ["d1"]
-        for p in ("f1", "f2", "d1/f3", "d1/g.txt"):
+        files = ("f1", "f2", "d1/f3", "d1/g.txt")
+        if self.extra:
+            for d in ("d2", "d1/sub"):
+                os.mkdir(os.path.join(base, d))
+                paths.append(d)
+            files += ("d2/h.txt", "d1/sub/k")
+        for p in files:
             with open(os.path.join(base, p), "wb") as f:
                 f.write(b"".join(b"%s line %d\n" % (p.encode(), i) for i in range(self.rng.randint(3, 8))))
             paths.append(p)
@@ -108,6 +125,10 @@ class Builder:
         name = name or rng.choice(sorted(self.h.trees))
         wt = self.wt(name)
         random_delta(rng, wt, self.names, rng.randint(1, 2 if self.light else 4), self.weights, self.h.log)
+        if self.extra and rng.random() < 0.3:
+            dirs = self._entries(wt, ("directory",))
+            if dirs and self._change_entry(wt, *rng.choice(dirs)):
+                self.shape("plain-dir-rename")
         if self.ghosts and rng.random() < 0.12 and wt.last_revision() != b"null:":
             g = b"ghost-%d" % len(self.h.order)
             wt.add_pending_merge(g)
@@ -143,7 +164,7 @@ class Builder:
         # make it diverge at once so merges are not fast-forwards
         return self.step_plain(nn)
 
-    def _do_merge(self, name, other, to_rev=None, from_rev=None):
+    def _do_merge(self, name, other, to_rev=None, from_rev=None, force=False):
         from breezy import errors
         from breezy.branch import Branch
 
@@ -151,10 +172,11 @@ class Builder:
         ob = Branch.open(self.h.trees[other])
         try:
             with wt.lock_write():
-                wt.merge_from_branch(ob, to_revision=to_rev, from_revision=from_rev)
+                wt.merge_from_branch(ob, to_revision=to_rev, from_revision=from_rev, force=force)
         except (errors.BzrError, KeyError, ValueError, OSError) as e:
             self.h.log.append({"merge-refused": type(e).__name__, "into": name, "from": other})
-            self._clean(name)
+            if not force:
+                self._clean(name)
             return None
         wt = self.wt(name)
         resolve_all(wt)
@@ -170,9 +192,111 @@ class Builder:
                         out.append((c.path[1], c.file_id, c.kind[1]))
         return out
 
+    # -- entries whose versions differ among the pending parents, and genuine changes to them (extra mode)
+    def _entries(self, wt, kinds=None):
+        out = []
+        with wt.lock_read():
+            for p, ie in wt.iter_entries_by_dir():
+                if p != "" and (kinds is None or ie.kind in kinds) and os.path.lexists(os.path.join(wt.basedir, p)):
+                    out.append((p, ie.file_id, ie.kind))
+        return out
+
+    def _forked_entries(self, wt):
+        """Entries of wt for which the (non-ghost) parent trees hold >= 2 different per-file versions."""
+        from breezy import errors
+        from breezy.tree import NoSuchId
+
+        repo = wt.branch.repository
+        out = []
+        with wt.lock_read(), repo.lock_read():
+            trees = []
+            for p in wt.get_parent_ids():
+                try:
+                    trees.append(repo.revision_tree(p))
+                except errors.NoSuchRevision:
+                    continue
+            if len(trees) < 2:
+                return out
+            for path, ie in wt.iter_entries_by_dir():
+                if path == "" or not os.path.lexists(os.path.join(wt.basedir, path)):
+                    continue
+                vs = set()
+                for t in trees:
+                    try:
+                        vs.add(t.get_file_revision(t.id2path(ie.file_id)))
+                    except (NoSuchId, errors.BzrError):
+                        continue
+                if len(vs) >= 2:
+                    out.append((path, ie.file_id, ie.kind))
+        return out
+
+    def _change_entry(self, wt, path, fid, kind):
+        """A genuine change of one entry: directory / symlink: rename or move; file: rename, move, chmod or edit."""
+        rng = self.rng
+        base = wt.basedir
+        how = "rename" if kind != "file" else rng.choice(["rename", "chmod", "edit"])
+        try:
+            if how == "rename":
+                d, _, n = path.rpartition("/")
+                stem = n.split(".m")[0] or "x"
+                if rng.random() < 0.3:  # move to another directory (or the root), keeping the name
+                    dirs = [""] + [p for p, _f, _k in self._entries(wt, ("directory",))
+                                   if p != path and not p.startswith(path + "/") and p.count("/") + 2 <= self.names.maxdepth]
+                    d = rng.choice(dirs)
+                    nn = n
+                else:
+                    nn = "%s.m%d" % (stem, len(self.h.order))
+                dst = (d + "/" if d else "") + nn
+                if dst == path or os.path.lexists(os.path.join(base, dst)):
+                    dst = (d + "/" if d else "") + "%s.m%d" % (stem, len(self.h.order))
+                if os.path.lexists(os.path.join(base, dst)):
+                    return False
+                wt.rename_one(path, dst)
+                self.h.log.append({"op": "rename", "src": path, "dst": dst, "kind": kind})
+            elif how == "chmod":
+                ap = os.path.join(base, path)
+                if os.path.islink(ap) or not os.path.isfile(ap):
+                    return False
+                ex = bool(os.stat(ap).st_mode & 0o100)
+                os.chmod(ap, 0o644 if ex else 0o755)
+                self.h.log.append({"op": "chmod", "path": path, "exec": not ex})
+            else:
+                ap = os.path.join(base, path)
+                if os.path.islink(ap) or not os.path.isfile(ap):
+                    return False
+                with open(ap, "ab") as f:
+                    f.write(b"touched %d\n" % len(self.h.order))
+                self.h.log.append({"op": "edit-append", "path": path})
+        except Exception as e:  # noqa: BLE001 - workload construction
+            self.h.log.append({"change-refused": type(e).__name__, "path": path})
+            return False
+        return True
+
+    def _touch_forked(self, wt):
+        """After a merge: really change some entries whose versions differ among the parents (directories first)."""
+        rng = self.rng
+        forked = self._forked_entries(wt)
+        dirs = [x for x in forked if x[2] == "directory"]
+        rest = [x for x in forked if x[2] != "directory"]
+        rng.shuffle(dirs)
+        rng.shuffle(rest)
+        # children first, so that a renamed parent does not invalidate the recorded path of a later pick
+        pick = sorted(dirs[:rng.randint(1, 3)], key=lambda x: -x[0].count("/")) + rest[:rng.randint(1, 2)]
+        if not dirs and rng.random() < 0.5:
+            pick += self._entries(wt, ("directory",))[:1]
+        done = set()
+        for path, fid, kind in pick:
+            if any(path.startswith(d + "/") for d in done):
+                continue
+            if self._change_entry(wt, path, fid, kind):
+                done.add(path)
+                self.shape("merge-touch-forked-" + ("dir" if kind == "directory" else "other"))
+
     def _post_merge(self, name, wt, mode):
         rng = self.rng
-        if mode == "edit":
+        if mode == "touch_forked":
+            self._touch_forked(wt)
+        elif mode == "edit":
             random_delta(rng, wt, self.names, rng.randint(1, 2), self.weights, self.h.log)
             self.shape("merge+edit")
         elif mode == "revert_this":
@@ -234,7 +358,7 @@ class Builder:
         wt = self._do_merge(name, other, to_rev=to_rev)
         if wt is None:
             return None
-        mode = mode or rng.choice(["none", "none", "edit", "revert_this", "revert_this", "revert_older"])
+        mode = mode or rng.choice(self.merge_modes)
         self._post_merge(name, wt, mode)
         h.log.append({"merge": other, "into": name, "rev": target.decode(), "mode": mode})
         rid = self._commit(name, wt)
@@ -258,6 +382,65 @@ class Builder:
         if r1 and r2:
             self.shape("criss-cross")
         return r1 or r2
+
+    def step_octopus(self):
+        """One commit merging two other branches (>= 3 parents).  The two merged branches are siblings when a
+        slot is free (the second is sprouted from the first, then both get a commit of their own), so they share
+        per-file versions the target does not have; otherwise any two existing branches are taken."""
+        rng = self.rng
+        h = self.h
+        if len(h.trees) < 2:
+            return None
+        name = rng.choice(sorted(h.trees))
+        others = [b for b in sorted(h.trees) if b != name]
+        b = rng.choice(others)
+        if len(h.trees) <= self.nbranches and (len(others) < 2 or rng.random() < 0.7):
+            mine = self.ancestry(self.tip(name))
+            # the first branch must hold something the target lacks before its sibling forks off
+            if self.tip(b) in mine or rng.random() < 0.5:
+                self.step_plain(b)
+            c = "b%d" % len(h.trees)
+            cp = os.path.join(h.root, c)
+            swt = self.wt(b)
+            lh = [r for r in self.lefthand(swt.last_revision())[:3] if r not in mine]
+            rev = rng.choice(lh) if lh and rng.random() < 0.3 else None
+            swt.branch.controldir.sprout(cp, revision_id=rev)
+            h.trees[c] = cp
+            h.log.append({"branch": c, "from": b, "at": rev.decode() if rev else None, "for": "octopus"})
+            self.shape("octopus-sibling")
+            for x in (b, c):  # both go their own way, so neither tip is an ancestor of the other
+                for _ in range(3):
+                    if self.step_plain(x):
+                        break
+        else:
+            c = rng.choice([x for x in others if x != b])
+        mine = self.ancestry(self.tip(name))
+        if self.tip(b) in mine and self.tip(c) in mine:
+            return None
+        wt = None
+        merged = set()
+        if self.tip(b) in self.ancestry(self.tip(c)):
+            b, c = c, b  # descendant first: the other one is then skipped below
+        for o in (b, c):
+            # a pending merge that is an ancestor of the tree's history or of an earlier pending merge adds nothing
+            if self.tip(o) in mine or self.tip(o) in merged:
+                continue
+            w2 = self._do_merge(name, o, force=wt is not None)
+            if w2 is not None:
+                wt = w2
+                merged |= self.ancestry(self.tip(o))
+            elif wt is not None:
+                wt = self.wt(name)
+                resolve_all(wt)
+        if wt is None:
+            return None
+        mode = rng.choice(self.merge_modes)
+        self._post_merge(name, wt, mode)
+        h.log.append({"octopus": [b, c], "into": name, "mode": mode, "pending": [p.decode() for p in wt.get_parent_ids()]})
+        rid = self._commit(name, wt)
+        if rid:
+            self.shape("octopus" if len(h.parents[rid]) >= 3 else "octopus-degenerate")
+        return rid
 
     def step_parallel(self):
         """The same change applied independently on two branches."""
@@ -291,7 +474,7 @@ class Builder:
                     f.write(data)
             done = True
         elif kind == "chmod":
-            ex = not wa.is_executable(fa[fid])
+            ex = not (os.stat(os.path.join(wa.basedir, fa[fid])).st_mode & 0o100)
             for wt, p in ((wa, fa[fid]), (wb, fb[fid])):
                 os.chmod(os.path.join(wt.basedir, p), 0o755 if ex else 0o644)
             done = True
@@ -377,7 +560,7 @@ class Builder:
     # ------------------------------------------------------------------ driver
     def run(self, nrevs, mix=None):
         rng = self.rng
-        mix = mix or {"plain": 30, "branch": 14, "merge": 26, "crisscross": 8, "parallel": 9, "cherrypick": 6, "resurrect": 4}
+        mix = mix or dict(MIX_EXTRA if self.extra else MIX)
         kinds = list(mix)
         guard = 0
         while len(self.h.order) < nrevs and guard < nrevs * 8:
@@ -389,5 +572,5 @@ class Builder:
         return self.h
 
 
-def build(ctx, rng, fmt="2a", nrevs=8, tier="quick", light=False, ghosts=True, tags=False, nbranches=3, mix=None):
-    return Builder(ctx, rng, fmt, tier, light, ghosts, tags, nbranches).run(nrevs, mix)
+def build(ctx, rng, fmt="2a", nrevs=8, tier="quick", light=False, ghosts=True, tags=False, nbranches=3, mix=None, extra=False):
+    return Builder(ctx, rng, fmt, tier, light, ghosts, tags, nbranches, extra=extra).run(nrevs, mix)
